@@ -318,11 +318,15 @@ class SysAdapter(Adapter):
                 if not res.success:
                     self.unconverged += 1
                     continue
-                key = repr(sorted(wp['snap'].items()))
+                # the fresh System is solved from the object's own solution (more than one root may exist; which one a solve
+                # from the zero guess reaches depends on rounding): SweepEqualsFresh = that solution is (next to) a root of a
+                # freshly built System with these parameters
+                root = hash(np.round(np.asarray(res.x) / (1.0 + float(np.max(np.abs(res.x)))), 5).tobytes())
+                key = repr(sorted(wp['snap'].items())) + str(root)
                 if key not in self.ref:
                     with warnings.catch_warnings():
                         warnings.simplefilter('ignore')
-                        fs, fp, fres = systems.solve(sc, maxiter=400)
+                        fs, fp, fres = systems.solve(sc, maxiter=400, guess=np.array(res.x, dtype=float))
                     self.ref[key] = np.array(fp.totalCorr.data) if fres.success else None
                 ref = self.ref[key]
                 if ref is None:
